@@ -123,6 +123,17 @@ def run(ctx):
         raise Exception("no behaviours")
     ctx.samples = [cases[0]["w"][:14]] + [c["crashes"][0] for c in cases if c["crashes"]][:2]
     ctx.log("%d complete workloads, %d crash prefixes, %d model crash points" % (len(full), len(part), sum(len(c["crashes"]) for c in cases)))
+    if os.environ.get("VERIF_CORRUPT"):      # binding self-test: corrupt one predicted field -> must exit 1
+        for c in cases:                        # drop one sample from the predicted contents of the first complete workload's last commit
+            if c["w"][-1]["a"] != "End":
+                continue
+            for st in reversed(c["w"]):
+                if st["a"] == "Commit" and any(st["exp"][s] for s in st["exp"]):
+                    s = [x for x in st["exp"] if st["exp"][x]][0]
+                    ctx.log("VERIF_CORRUPT: removing %s from the predicted contents of a Commit" % st["exp"][s][-1])
+                    st["exp"][s] = st["exp"][s][:-1]
+                    break
+            break
     inp = ctx.write_ndjson("cases.ndjson", cases)
     gr = ctx.go_test("tsdb", ["db_replay_test.go", "c03_crash_test.go"], "^TestVerifC03Crash$", env={"VERIF_IN": inp}, timeout="120m")
     ctx.absorb(gr, label="C03 crash runs")
